@@ -23,6 +23,10 @@ def programs(quick, seed):
     # group paths whose names concatenate to the same string (a.b vs ab; a.bc vs ab.c)
     P['rconcat1'] = progs.Program('rconcat1', [L('Id', 'int64', tag='id'), G('A', [G('B', [L('X', 'int32', tag='x')], 'opt', tag='b')], tag='a'), G('Ab', [L('Y', 'string', 'opt', tag='y'), L('Z', 'float64', tag='z')], 'opt', tag='ab')])
     P['rconcat2'] = progs.Program('rconcat2', [G('A', [G('Bc', [L('X', 'int32', tag='x')], tag='bc')], 'opt', tag='a'), G('Ab', [G('C', [L('Y', 'bool', 'opt', tag='y')], 'opt', tag='c')], tag='ab')])
+    # two sibling groups followed by further columns (the regenerator must skip the descendants of BOTH groups)
+    P['rsiblings'] = progs.Program('rsiblings', [G('Home', [L('City', 'string', tag='city')], tag='home'), G('Work', [L('Title', 'string', tag='title'), L('Salary', 'float64', 'opt', tag='salary')], 'opt', tag='work'),
+                                                 L('Age', 'int32', tag='age'), L('Note', 'string', 'opt', tag='note')])
+    P['rsiblings2'] = progs.Program('rsiblings2', [G('Outer', [G('Ga', [L('X', 'int32', tag='x')], tag='ga'), G('Gb', [L('Y', 'int64', 'opt', tag='y')], 'opt', tag='gb'), L('Z', 'bool', tag='z')], 'opt', tag='outer'), L('Tail', 'string', tag='tail')])
     return P
 
 
